@@ -294,3 +294,219 @@ theorem contextualCheck_ok_iff (std : Std) (m : Model) (t : Tuple) (hwf : Restrs
   rw [forWrite_iff_core std m t hwf, contextual_iff_core]
 
 end OpenFGAVerif.Proofs.Validation
+
+namespace OpenFGAVerif.Proofs.Validation
+open OpenFGAVerif.Model.TupleStr OpenFGAVerif.Spec.TupleStr OpenFGAVerif.Proofs.TupleStr
+open OpenFGAVerif.Model.Validation OpenFGAVerif.Spec.Allowed
+open OpenFGAVerif.Model.Condition (Ctx Std)
+
+/-! ### the write-only checks -/
+
+theorem allowedWith_split (R : RelDef → Tuple → Bool) (std : Std) (lim : Nat) (m : Model) (t : Tuple) :
+    allowedWith R (some lim) false std m t =
+      (allowedWith R none true std m t && (t.user != t.obj ++ 35 :: t.rel) && decide (ctxSize t ≤ lim)) := by
+  unfold allowedWith
+  cases typed t.obj with
+  | none => simp
+  | some p =>
+    obtain ⟨typ, id⟩ := p
+    dsimp only
+    cases m.types.find? (·.name == typ) with
+    | none => simp
+    | some td =>
+      dsimp only
+      cases td.rels.find? (·.name == t.rel) with
+      | none => simp
+      | some rd =>
+        dsimp only
+        have hc : ctxOK std (some lim) m t = (ctxOK std none m t && decide (ctxSize t ≤ lim)) := by
+          unfold ctxOK ctxSize
+          cases t.cond with
+          | none => simp
+          | some q => obtain ⟨name, ctx⟩ := q; simp
+        rw [hc]
+        cases grammarObjectB t.obj <;> cases (id != [42]) <;> cases grammarRelationB t.rel <;> cases R rd t <;>
+          cases (!td.tuplesets.contains t.rel || (rd.direct && concreteObject t.user)) <;>
+          cases ctxOK std none m t <;> cases decide (ctxSize t ≤ lim) <;> cases (t.user != t.obj ++ 35 :: t.rel) <;> rfl
+
+theorem grammarRelation_facts (r : Bytes) (h : grammarRelationB r = true) : r ≠ [] ∧ (35 : UInt8) ∉ r := by
+  unfold grammarRelationB at h
+  simp only [Bool.and_eq_true, decide_eq_true_eq] at h
+  exact ⟨h.1, plain_not_mem exRelation r h.2 35 (by decide)⟩
+
+/-- on tuples that pass `ValidateTupleForWrite`, `validateNotImplicit` is "the user is the userset object#relation" -/
+theorem isImplicit_eq (std : Std) (m : Model) (t : Tuple) (h : Core std m t) :
+    isImplicit t = (t.user == t.obj ++ 35 :: t.rel) := by
+  obtain ⟨_, typ, id, td, rd, _, _, hgr, _, _, hm, _⟩ := h
+  obtain ⟨hne, h35⟩ := grammarRelation_facts t.rel hgr
+  unfold isImplicit
+  rcases any_userMatches_shape rd t.user hm with hs | hs
+  · obtain ⟨ut, ui, s⟩ := objShape_of t.user hs
+    rw [s.splitObjectRelation_eq]
+    have h1 : (t.rel == ([] : Bytes)) = false := by simpa using hne
+    have h2 : (t.user == t.obj ++ 35 :: t.rel) = false := by
+      apply beq_false_of_ne
+      intro e; apply s.no_hash; rw [e]; simp
+    simp [h1, h2]
+  · obtain ⟨ut, ui, ur, s⟩ := usShape_of t.user hs
+    rw [s.splitObjectRelation_eq]
+    dsimp only
+    by_cases e : t.user = t.obj ++ 35 :: t.rel
+    · have := s.splitObjectRelation_eq
+      rw [e, splitObjectRelation_append t.obj t.rel h35] at this
+      simp only [Prod.mk.injEq] at this
+      simp [e, this.1, this.2]
+    · have : ¬ (t.rel = ur ∧ t.obj = ut ++ 58 :: ui) := by
+        rintro ⟨e1, e2⟩; apply e; rw [s.eq, e1, e2]
+      have h2 : (t.user == t.obj ++ 35 :: t.rel) = false := beq_false_of_ne e
+      rw [h2]
+      by_cases e1 : t.rel = ur
+      · have e2 : t.obj ≠ ut ++ 58 :: ui := fun e2 => this ⟨e1, e2⟩
+        simp [e1, e2]
+      · simp [e1]
+
+/-- **`WriteCommand`'s per-tuple checks accept exactly `acceptedByWrite`** -/
+theorem writeCheck_ok_iff (std : Std) (lim : Nat) (m : Model) (t : Tuple) (hwf : RestrsWF m) :
+    writeCheck std lim m t = .ok () ↔ acceptedByWrite std lim m t = true := by
+  unfold acceptedByWrite
+  rw [allowedWith_split]
+  unfold writeCheck
+  simp only [bind_ok_iff, Bool.and_eq_true, decide_eq_true_eq, bne_iff_ne, ne_eq]
+  constructor
+  · rintro ⟨hw, hi, hs⟩
+    have hcore := (forWrite_iff_core std m t hwf).mp hw
+    have hctx := (contextual_iff_core std m t).mpr hcore
+    have himp := isImplicit_eq std m t hcore
+    refine ⟨⟨hctx, ?_⟩, ?_⟩
+    · intro e
+      have : isImplicit t = true := by rw [himp]; simpa using e
+      simp [this] at hi
+    · by_cases hsz : ctxSize t > lim
+      · simp [hsz] at hs
+      · omega
+  · rintro ⟨⟨hctx, hne⟩, hsz⟩
+    have hcore := (contextual_iff_core std m t).mp hctx
+    have himp := isImplicit_eq std m t hcore
+    have hi : isImplicit t = false := by
+      rw [himp]; exact beq_false_of_ne hne
+    refine ⟨(forWrite_iff_core std m t hwf).mpr hcore, by simp [hi], ?_⟩
+    have : ¬ ctxSize t > lim := by omega
+    simp [this]
+
+/-! ### strict versus loose -/
+
+theorem userMatches_congr (r r' : Restr) (u : Bytes) (h1 : r.typ = r'.typ) (h2 : r.kind = r'.kind) :
+    userMatches r u = userMatches r' u := by
+  unfold userMatches; rw [h1, h2]
+
+theorem userMatches_typ (r : Restr) (u : Bytes) (h : userMatches r u = true) : r.typ = userTypeOf u := by
+  unfold userMatches at h
+  unfold userTypeOf
+  cases hk : r.kind <;> rw [hk] at h <;> simp only [Bool.and_eq_true] at h <;>
+    (cases ht : typed u with
+     | none => rw [ht] at h; simp at h
+     | some p => obtain ⟨a, b⟩ := p; rw [ht] at h; simp only [Bool.and_eq_true, beq_iff_eq] at h; exact h.2.1.symm)
+
+theorem userMatches_compat (r : Restr) (u : Bytes) (h : userMatches r u = true) :
+    (match r.kind with
+     | .obj => !isStar u
+     | .wild => isStar u
+     | .rel x => x == [] || x == userRelOf u) = true := by
+  unfold userMatches at h
+  unfold isStar userRelOf
+  cases hk : r.kind <;> rw [hk] at h <;> simp only [Bool.and_eq_true] at h <;>
+    (cases ht : typed u with
+     | none => rw [ht] at h; simp at h
+     | some p =>
+       obtain ⟨a, b⟩ := p; rw [ht] at h; simp only [Bool.and_eq_true, beq_iff_eq, bne_iff_ne, ne_eq] at h
+       dsimp only)
+  · simpa using h.2.2
+  · simpa using h.2.2
+  · cases hs : splitFirst 35 b with
+    | none => rw [hs] at h; simp at h
+    | some q => obtain ⟨c, d⟩ := q; rw [hs] at h; simp only [beq_iff_eq] at h; simp [h.2.2]
+
+theorem strict_imp_loose (rd : RelDef) (t : Tuple) (h : restrStrict rd t = true) : restrLoose rd t = true := by
+  unfold restrStrict at h
+  obtain ⟨r, hr, hm⟩ := List.any_eq_true.mp h
+  simp only [Bool.and_eq_true, beq_iff_eq] at hm
+  rw [restrLoose_eq]
+  simp only [Bool.and_eq_true]
+  refine ⟨List.any_eq_true.mpr ⟨r, hr, hm.1⟩, ?_⟩
+  unfold condLoose
+  unfold condName at hm
+  cases hc : t.cond with
+  | none =>
+    rw [hc] at hm
+    refine List.any_eq_true.mpr ⟨r, hr, ?_⟩
+    simp only [Bool.and_eq_true, beq_iff_eq]
+    exact ⟨⟨hm.2, userMatches_typ r t.user hm.1⟩, userMatches_compat r t.user hm.1⟩
+  | some p =>
+    obtain ⟨name, ctx⟩ := p
+    rw [hc] at hm
+    refine List.any_eq_true.mpr ⟨r, hr, ?_⟩
+    simp only [Bool.and_eq_true, beq_iff_eq]
+    exact ⟨userMatches_typ r t.user hm.1, hm.2⟩
+
+theorem loose_imp_strict (rd : RelDef) (t : Tuple) (hu : UniformConds rd) (h : restrLoose rd t = true) :
+    restrStrict rd t = true := by
+  rw [restrLoose_eq] at h
+  simp only [Bool.and_eq_true] at h
+  obtain ⟨rm, hrm, hm⟩ := List.any_eq_true.mp h.1
+  have hty := userMatches_typ rm t.user hm
+  -- a restriction of the user's type that carries the tuple's condition (or none)
+  have : ∃ rc ∈ rd.restrs, rc.typ = userTypeOf t.user ∧ rc.cond = condName t := by
+    have h2 := h.2
+    unfold condLoose at h2
+    unfold condName
+    cases hc : t.cond with
+    | none =>
+      rw [hc] at h2
+      obtain ⟨rc, hrc, hcc⟩ := List.any_eq_true.mp h2
+      simp only [Bool.and_eq_true, beq_iff_eq] at hcc
+      exact ⟨rc, hrc, hcc.1.2, hcc.1.1⟩
+    | some p =>
+      obtain ⟨name, ctx⟩ := p
+      rw [hc] at h2
+      obtain ⟨rc, hrc, hcc⟩ := List.any_eq_true.mp h2
+      simp only [Bool.and_eq_true, beq_iff_eq] at hcc
+      exact ⟨rc, hrc, hcc.1, hcc.2⟩
+  obtain ⟨rc, hrc, hct, hcc⟩ := this
+  obtain ⟨r2, hr2, e1, e2, e3⟩ := hu rc hrc rm hrm (by rw [hct, hty])
+  unfold restrStrict
+  refine List.any_eq_true.mpr ⟨r2, hr2, ?_⟩
+  simp only [Bool.and_eq_true, beq_iff_eq]
+  exact ⟨by rw [userMatches_congr r2 rm t.user e1 e2]; exact hm, by rw [e3, hcc]⟩
+
+theorem allowedWith_mono (R1 R2 : RelDef → Tuple → Bool) (lim : Option Nat) (sr : Bool) (std : Std) (m : Model) (t : Tuple)
+    (hR : ∀ td ∈ m.types, ∀ rd ∈ td.rels, R1 rd t = true → R2 rd t = true)
+    (h : allowedWith R1 lim sr std m t = true) : allowedWith R2 lim sr std m t = true := by
+  unfold allowedWith at h ⊢
+  cases hty : typed t.obj with
+  | none => rw [hty] at h; simp at h
+  | some p =>
+    obtain ⟨typ, id⟩ := p
+    rw [hty] at h
+    dsimp only at h ⊢
+    cases hf : m.types.find? (·.name == typ) with
+    | none => rw [hf] at h; simp at h
+    | some td =>
+      rw [hf] at h
+      dsimp only at h ⊢
+      cases hr : td.rels.find? (·.name == t.rel) with
+      | none => rw [hr] at h; simp at h
+      | some rd =>
+        rw [hr] at h
+        dsimp only at h ⊢
+        simp only [Bool.and_eq_true] at h ⊢
+        obtain ⟨h1, ⟨⟨h2, h3⟩, h4⟩, h5⟩ := h
+        exact ⟨h1, ⟨⟨hR td (List.mem_of_find?_eq_some hf) rd (List.mem_of_find?_eq_some hr) h2, h3⟩, h4⟩, h5⟩
+
+/-! ### deletes -/
+
+theorem checkAll_ok_iff {α : Type} (f : α → R) (l : List α) : checkAll f l = .ok () ↔ ∀ x ∈ l, f x = .ok () := by
+  induction l with
+  | nil => simp [checkAll]
+  | cons a as ih => simp [checkAll, bind_ok_iff, ih]
+
+end OpenFGAVerif.Proofs.Validation
